@@ -289,6 +289,11 @@ func (x *ctx) apply(c caseT) opsenv.ApplyFunc {
 				return append(d, []byte("— other.example/log AAAAAAECAwQFBgcICQ==\n")...), nil
 			case "attacker-head":
 				return rebuild(id, text, A.Head(treeSize(), "attacker", "")), nil
+			case "attacker-head-twice":
+				return rebuild(id, text, A.Head(treeSize(), "attacker-twice", "")), nil
+			case "fw-lookup-attacker-head-twice":
+				fl := x.forgedLog(int(id))
+				return rebuild(id, fl.Mods[id].Text, fl.Head(treeSize(), "attacker-twice", "")), nil
 			case "both-signed-head":
 				return rebuild(id, text, A.Head(treeSize(), "both", "")), nil
 			case "stale":
@@ -319,6 +324,12 @@ func (x *ctx) apply(c caseT) opsenv.ApplyFunc {
 					return d, nil
 				}
 				return x.forgedLog(0).Head(int(t.N), "attacker", ""), nil
+			case "forged-attacker-head-twice":
+				t, err := clientx.OpenHead(d)
+				if err != nil || t.N == 0 {
+					return d, nil
+				}
+				return x.forgedLog(0).Head(int(t.N), "attacker-twice", ""), nil
 			default:
 				panic("unknown config fault " + f.Kind)
 			}
@@ -392,7 +403,7 @@ func menuX(t opsenv.Touch, reduced, everyByte bool) []opsenv.Fault {
 				add("flip", len(d)*frac/100)
 			}
 		}
-		for _, k := range []string{"id+1", "swap-record", "swap-text", "forged-text", "extra-record-line", "extra-unknown-sig", "attacker-head", "realkey-extra-lines", "error", "empty", "garbage", "trunc-half"} {
+		for _, k := range []string{"id+1", "swap-record", "swap-text", "forged-text", "extra-record-line", "extra-unknown-sig", "attacker-head", "attacker-head-twice", "fw-lookup-attacker-head-twice", "realkey-extra-lines", "error", "empty", "garbage", "trunc-half"} {
 			add(k, 0)
 		}
 		add("stale", 0)
@@ -415,7 +426,7 @@ func menuX(t opsenv.Touch, reduced, everyByte bool) []opsenv.Fault {
 				add("flip", len(d)*frac/100)
 			}
 		}
-		for _, k := range []string{"trunc-half", "garbage", "attacker-head", "forged-attacker-head", "error", "trunc-byte"} {
+		for _, k := range []string{"trunc-half", "garbage", "attacker-head", "forged-attacker-head", "forged-attacker-head-twice", "error", "trunc-byte"} {
 			add(k, 0)
 		}
 	}
